@@ -479,7 +479,7 @@ def rule_factor_bytes(P):
     f = P.func("wfsa/base.py::WFSA.to_bytes")
     r.looked_at(f)
     arcs = _adds(f, names=("add_arc",))
-    if len(arcs) < 4:
+    if len(arcs) < 3:
         raise AnalysisError("wfsa/base.py::WFSA.to_bytes: add_arc sites not found")
     loop = None
     for n in walk_live(f.node):
@@ -494,6 +494,33 @@ def rule_factor_bytes(P):
         key = "eps" if any(ft.pol and norm(ft.test) == f"{a} == EPSILON" for ft in facts) else \
             ("single" if any(ft.pol and "len(" in norm(ft.test) and "== 1" in norm(ft.test) for ft in facts) else "multi")
         groups.setdefault(key, []).append(c)
+    if "single" not in groups and len(groups.get("multi", [])) == 2:
+        # uniform chain: curr = i; for b in bs[:-1]: nxt = fresh(); add_arc(curr, b, nxt, one); curr = nxt;  add_arc(curr, bs[-1], j, w)
+        inner = [c for c in groups["multi"] if len(W.enclosing_loops(c)) > 1]
+        last = [c for c in groups["multi"] if len(W.enclosing_loops(c)) == 1]
+        if len(inner) == 1 and len(last) == 1 and isinstance(inner[0].args[0], ast.Name) and isinstance(last[0].args[0], ast.Name):
+            ic, lc = inner[0], last[0]
+            lp = W.enclosing_loops(ic)[0]
+            cv = ic.args[0].id
+            bs = norm(lp.iter).split("[")[0]
+            init = [st for st, v in W.assignments_to(f.node, cv) if v is not None and norm(v) == i and W.pos(st) < W.pos(lp) and W._within(st, loop)]
+            step = [n for n in lp.body if isinstance(n, ast.Assign) and W.is_name(n.targets[0], cv) and norm(n.value) == norm(ic.args[2]) and W.pos(n) > W.pos(ic)]
+            fresh = isinstance(ic.args[2], ast.Name) and any(v is not None and isinstance(v, ast.Call) and W._within(st, lp) for st, v in W.assignments_to(f.node, ic.args[2].id))
+            problems = []
+            if norm(lp.iter) != f"{bs}[:-1]":
+                problems.append(f"the inner loop ranges over `{norm(lp.iter)}`, not over all bytes but the last")
+            if not init:
+                problems.append(f"`{cv}` does not start at the arc's source `{i}`")
+            if not step or not fresh:
+                problems.append(f"`{cv}` is not advanced to a fresh state after every byte")
+            if norm(ic.args[1]) != norm(lp.target) or not norm(ic.args[3]).endswith(".one"):
+                problems.append(f"an inner arc is `{first_line(ic)}`: it must read the loop's byte with weight one")
+            if lc.args[0].id != cv or norm(lc.args[1]) != f"{bs}[-1]" or norm(lc.args[2]) != j or norm(lc.args[3]) != w or W.pos(lc) < W.end_pos(lp):
+                problems.append(f"the last arc `{first_line(lc)}` must leave `{cv}` on `{bs}[-1]` into `{j}` with weight `{w}`, after the loop")
+            r.add(f, lc, not problems, "; ".join(problems), slots=dict(shape="uniform chain", weights=[norm(ic.args[3]), norm(lc.args[3])]),
+                  construct="to_bytes multi-byte branch")
+            r.add(f, ic, not problems, "; ".join(problems), construct="to_bytes: chain connectivity")
+            groups = {k: v for k, v in groups.items() if k != "multi"}
     for key, cs in groups.items():
         ws = [norm(c.args[3]) for c in cs]
         if key in ("eps", "single"):
